@@ -338,22 +338,32 @@ func (d *EntitlementMappingDeclaration) Doc(ctx PrettyContext) prettier.Doc {
 		)
 	}
 
-	return ctx.Wrap(d, prettier.Concat{
+	doc := prettier.Concat{
 		prettier.Group{Doc: headerDoc},
 		prettier.Space,
 		mappingStartDoc,
-		prettier.Indent{
-			Doc: prettier.Concat{
-				prettier.HardLine{},
-				prettier.Join(
+	}
+
+	// NOTE: prettier.Join returns nil for no documents
+	if len(elementsDocs) > 0 {
+		doc = append(
+			doc,
+			prettier.Indent{
+				Doc: prettier.Concat{
 					prettier.HardLine{},
-					elementsDocs...,
-				),
+					prettier.Join(
+						prettier.HardLine{},
+						elementsDocs...,
+					),
+				},
 			},
-		},
-		prettier.HardLine{},
-		mappingEndDoc,
-	})
+			prettier.HardLine{},
+		)
+	}
+
+	doc = append(doc, mappingEndDoc)
+
+	return ctx.Wrap(d, doc)
 }
 
 func (d *EntitlementMappingDeclaration) String() string {
